@@ -1,1 +1,28 @@
-fn main(){}
+//! Copies the subject's NEON scanner source next to a software emulation of the intrinsics it
+//! uses, so that the *real* neon.rs is compiled and executed on this x86-64 host.
+//!
+//! Exactly one thing is replaced: the import `use core::arch::aarch64::*;` becomes
+//! `use crate::neon_emu::*;`. The unit tests at the end of the file (cfg(test), they reference
+//! crate-private tables) are cut off. Anything unexpected fails the build loudly.
+
+use std::env;
+use std::fs;
+use std::path::PathBuf;
+
+fn main() {
+    println!("cargo:rerun-if-env-changed=HTTPARSE_REPO");
+    let repo = env::var("HTTPARSE_REPO").unwrap_or_else(|_| "/repo".to_string());
+    let src = PathBuf::from(&repo).join("src/simd/neon.rs");
+    println!("cargo:rerun-if-changed={}", src.display());
+    let text = fs::read_to_string(&src).unwrap_or_else(|e| panic!("cannot read {}: {}", src.display(), e));
+    let import = "use core::arch::aarch64::*;";
+    assert_eq!(text.matches(import).count(), 1, "expected exactly one `{}` in {}", import, src.display());
+    let text = text.replace(import, "use crate::neon_emu::*;");
+    let cut = text.find("#[test]").unwrap_or(text.len());
+    let body = &text[..cut];
+    for needed in ["pub fn match_header_name_vectored", "pub fn match_header_value_vectored", "pub fn match_uri_vectored"] {
+        assert!(body.contains(needed), "{} not found in {}", needed, src.display());
+    }
+    let out = PathBuf::from(env::var("OUT_DIR").unwrap()).join("neon_subject.rs");
+    fs::write(&out, body).unwrap();
+}
